@@ -166,7 +166,13 @@ class FileAccessor(neuroglancer_scripts.accessor.Accessor):
         xmin, xmax, ymin, ymax, zmin, zmax = chunk_coords
         chunk_filename = pattern.format(
             xmin, xmax, ymin, ymax, zmin, zmax, key=key)
-        return self.base_path / chunk_filename
+        chunk_path = self.base_path / chunk_filename
+        # The scale key comes from the info file: like the names given to
+        # fetch_file/store_file, it must not lead outside of base_path
+        if ".." in chunk_path.relative_to(self.base_path).parts:
+            raise ValueError("only relative paths pointing under base_path "
+                             "are accepted")
+        return chunk_path
 
     def _flat_chunk_basename(self, key, chunk_coords):
         xmin, xmax, ymin, ymax, zmin, zmax = chunk_coords
